@@ -1132,6 +1132,35 @@ pub fn c04(_class: &str, seed: u64, p: &Params) -> Out {
             expect(&mut o, &mut table, "tc/non-member-substituted".into(), false, es(t2.verify(c)), desc.clone());
             let t2 = TC { round, votes: vec![] };
             expect(&mut o, &mut table, "tc/empty".into(), false, es(t2.verify(c)), desc.clone());
+            // One member signing several timeouts of this round that report different high-QC rounds
+            // (every entry validly signed): its stake counts once, whatever the entries say.
+            let q = f.t.quorum();
+            let s0 = signers[0];
+            let st0 = f.t.stakes[s0] as u64;
+            if round >= 2 && st0 > 0 && st0 < q {
+                // (a) a single member alone, repeated until the naive sum of stakes reaches the quorum
+                let k = ((q + st0 - 1) / st0) as usize;
+                if k as u64 <= round && k <= 64 {
+                    let entries: Vec<(usize, u64)> = (0..k).map(|j| (s0, j as u64)).collect();
+                    let t2 = f.tc(round, &entries);
+                    expect(&mut o, &mut table, "tc/one-member-many-high-qc-rounds".into(), false, es(t2.verify(c)), desc.clone());
+                }
+                // (b) the last signer of a valid TC replaced by a second, different timeout of the first
+                if tc.votes.len() >= 2 {
+                    let last = *signers.last().unwrap();
+                    let distinct: u64 = signers.iter().filter(|i| **i != last).map(|i| f.t.stakes[*i] as u64).sum();
+                    if distinct < q {
+                        let mut e2 = entries.clone();
+                        let k = e2.len() - 1;
+                        let other = if e2[0].1 + 1 < round { e2[0].1 + 1 } else { e2[0].1.saturating_sub(1) };
+                        if other != e2[0].1 {
+                            e2[k] = (s0, other);
+                            let t2 = f.tc(round, &e2);
+                            expect(&mut o, &mut table, "tc/repeated-signer-other-high-qc-round".into(), false, es(t2.verify(c)), desc.clone());
+                        }
+                    }
+                }
+            }
         }
         // ---- blocks
         let author = *members.choose(&mut rng).unwrap();
